@@ -57,7 +57,7 @@ func runC22(c *Ctx) {
 	r := c.R
 	r.Exhaustive = true
 	r.Rule("C22.R1", "updateConnectionState, tabulated over (closed, ICE state, DTLS state): the state handed to onConnectionStateChange equals the W3C RTCPeerConnectionState aggregate in every cell over the W3C states", 70)
-	r.Rule("C22.R2", "the notification happens iff the computed state differs from the stored state (tabulated over the stored state too); the stored state is written only by onConnectionStateChange and the constructor", 72)
+	r.Rule("C22.R2", "the notification happens iff the computed state differs from the stored state (tabulated over the stored state too); the stored state is written only by onConnectionStateChange and the constructor; onConnectionStateChange is called only from updateConnectionState", 73)
 	r.Rule("C22.R3", "the ICETransportState -> ICEConnectionState mapping in createICETransport is the identity on names and feeds both onICEConnectionStateChange and updateConnectionState", 7)
 	r.NotCovered = append(r.NotCovered, "interleaving of two concurrent updateConnectionState calls between compare and store", "cells with Unknown / undeclared enum values (no W3C oracle)")
 	r.Trusted = append(r.Trusted, "W3C webrtc §4.3.3 aggregate as transcribed in props/c22.go", "absint soundness on the supported fragment")
@@ -182,6 +182,26 @@ func runC22(c *Ctx) {
 					key := "connectionState." + sel.Sel.Name + "|in:" + fi.Name()
 					okSite := fi == onChange || fi == ctor
 					r.Check(okSite, "C22.R2", key, c.P.Pos(call.Pos()), "stored state written in its owner", "stored connection state written outside onConnectionStateChange/constructor: the changed-test can be bypassed")
+				}
+				return true
+			})
+		}
+		// who may notify: the handler-invoking function is called only from updateConnectionState (behind the changed-test)
+		for _, fi := range c.P.AllFuncs() {
+			if fi.Decl.Body == nil {
+				continue
+			}
+			info := fi.Pkg.TypesInfo
+			ast.Inspect(fi.Decl.Body, func(n ast.Node) bool {
+				if call, ok := n.(*ast.CallExpr); ok && core.IsCallTo(info, call, onChange.Obj) {
+					r.Check(fi == upd, "C22.R2", "call:onConnectionStateChange|in:"+fi.Name(), c.P.Pos(call.Pos()),
+						"notification goes through updateConnectionState's changed-test", "onConnectionStateChange is called directly, bypassing the 'only when the state actually changes' test in updateConnectionState")
+				}
+				// taking the method value would allow indirect calls
+				if se, ok := n.(*ast.SelectorExpr); ok && info.Uses[se.Sel] == types.Object(onChange.Obj) {
+					if sel := info.Selections[se]; sel != nil && sel.Kind() == types.MethodVal {
+						return true
+					}
 				}
 				return true
 			})
